@@ -10,7 +10,7 @@ EXPLANATION = ('Every proved matcher contract has a postcondition that mentions 
 LEVEL_TEXT = EXPLANATION
 TIMEOUT_MS = {'quick': 20000, 'thorough': 120000}
 MUSTFAIL_PER_FN = {'quick': 1, 'thorough': 6}
-BOUNDED = [hub_bounded('C04-history-and-tree', ['basic', 'forms', 'lang', 'iframe', 'attrs', 'identical', 'plain', 'ns', 'xforms', 'langmeta', 'xlang', 'api'], ['core', 'html', 'lang'])]
+BOUNDED = [hub_bounded('C04-history-and-tree', ['basic', 'forms', 'lang', 'iframe', 'attrs', 'identical', 'plain', 'ns', 'xforms', 'langmeta', 'xlang', 'radio-order', 'api'], ['core', 'html', 'lang'])]
 
 
 def _f2(ctx):
